@@ -5,7 +5,7 @@ import json, os, random, sys, logging
 import ntcore
 from robotpy_ext.autonomous import StatefulAutonomous, state, timed_state
 logging.getLogger("autonomous").setLevel(logging.CRITICAL)
-SEED = int(os.environ.get("VERIF_SEED", "0")); N = int(os.environ.get("C15_TRIALS", "300"))
+SEED = int(os.environ.get("VERIF_SEED", "0")); N = int(os.environ.get("C15_TRIALS", "300")) * int(os.environ.get("VERIF_SCALE", "1"))
 rnd = random.Random(SEED)
 BIG = 0xFFFFFFFF
 def fail(msg, hist):
